@@ -164,6 +164,10 @@ pub enum Event {
     PassEnd(u64, usize),
     /// an iteration is over: iteration and the two bounds
     IterEnd(u64, [f64; 2]),
+    /// the evaluator resolved an infoset: deviating player index, infoset, value of reaching it
+    EvalPop(usize, usize, f64),
+    /// the evaluator finished: best response values of the two players
+    EvalEnd([f64; 2]),
 }
 
 #[derive(Default)]
@@ -478,6 +482,18 @@ pub(crate) fn pass_end(it: u64, player: usize) {
 pub(crate) fn iter_end(it: u64, bounds: [f64; 2]) {
     if active() && RECORD.load(Ordering::Relaxed) {
         push(Event::IterEnd(it, bounds));
+    }
+}
+
+pub(crate) fn eval_pop(player_one: bool, info: usize, value: f64) {
+    if active() && RECORD.load(Ordering::Relaxed) {
+        push(Event::EvalPop(if player_one { 0 } else { 1 }, info, value));
+    }
+}
+
+pub(crate) fn eval_end(values: [f64; 2]) {
+    if active() && RECORD.load(Ordering::Relaxed) {
+        push(Event::EvalEnd(values));
     }
 }
 
